@@ -407,6 +407,188 @@ theorem copyFrom_rel (r : RArr) (a : AState) (h : Rel r a) (ha : a.elems = []) (
         cases r1; simp at c1 hn0 ⊢; exact ⟨c1.symm, hn0.symm⟩
       rw [e4]; exact c4
 
+theorem pushAll_some (xs : List Int) : ∀ (cap : Nat) (es : List Int), es.length + xs.length ≤ cap →
+    AState.pushAll { cap := cap, data := some es } xs = some { cap := cap, data := some (es ++ xs) } := by
+  induction xs with
+  | nil => intro cap es _; simp [AState.pushAll]
+  | cons x xs ih =>
+    intro cap es h
+    simp only [List.length_cons] at h
+    have hlt : es.length < cap := by omega
+    simp only [AState.pushAll, AState.push, hlt, if_true]
+    rw [ih cap (es ++ [x]) (by simp; omega)]
+    simp
+
+/-- `reserve(n)` with `n > 0`: the block afterwards, explicitly -/
+theorem reserve_shape (r : RArr) (a : AState) (h : Rel r a) (n : Nat) (hn : 0 < n) :
+    ∃ r1 cap1, reserve r n = some r1 ∧ r1.cells = some (img a.elems cap1) ∧ r1.cap = cap1 ∧
+      r1.n = a.elems.length ∧ n ≤ cap1 ∧ a.elems.length ≤ cap1 ∧
+      (a.reserve n).1 = { cap := cap1, data := some a.elems } := by
+  obtain ⟨r1, e1, h1⟩ := reserve_rel r a h n
+  obtain ⟨q1, _, q3, _, q5⟩ := AState.reserve_spec a n (rel_ok h)
+  have hsome := q5 (Or.inl hn)
+  generalize (a.reserve n).1 = a1 at h1 q1 q3 hsome
+  obtain ⟨cap1, data1⟩ := a1
+  cases data1 with
+  | none => simp at hsome
+  | some es =>
+    have hes : es = a.elems := by simpa [AState.elems] using q1
+    subst hes
+    obtain ⟨g1, g2, g3, g4⟩ := h1
+    exact ⟨r1, cap1, e1, g2, g1, g3, q3, g4, rfl⟩
+
+theorem selfCopyLoop_img (es : List Int) (cap : Nat) : ∀ (k j : Nat), j + k = es.length → es.length + es.length ≤ cap →
+    selfCopyLoop (img (es ++ es.take j) cap) (es.length + j) j k = some (img (es ++ es) cap) := by
+  intro k
+  induction k with
+  | zero => intro j h _; simp only [selfCopyLoop]; rw [List.take_of_length_le (by omega)]
+  | succ k ih =>
+    intro j h hc
+    have hj : j < es.length := by omega
+    have hr : readCell (img (es ++ es.take j) cap) j = some es[j] := by
+      rw [readCell_img _ _ j (by simp; omega)]
+      simp [List.getElem_append_left hj]
+    have hl : (es ++ es.take j).length = es.length + j := by simp; omega
+    have hcst := construct_img (es ++ es.take j) cap es[j] (by rw [hl]; omega)
+    rw [hl] at hcst
+    simp only [selfCopyLoop, hr, hcst]
+    have : es ++ es.take j ++ [es[j]] = es ++ es.take (j + 1) := by
+      rw [List.append_assoc, List.take_succ_eq_append_getElem hj]
+    rw [this]
+    exact ih (j + 1) (by omega) hc
+
+theorem fillRefLoop_img (es : List Int) (cap i : Nat) (hi : i < es.length) : ∀ (k : Nat) (fs : List Int),
+    es.length + fs.length + k ≤ cap →
+    fillRefLoop (img (es ++ fs) cap) (es.length + fs.length) i k = some (img (es ++ fs ++ List.replicate k es[i]) cap) := by
+  intro k
+  induction k with
+  | zero => intro fs _; simp [fillRefLoop]
+  | succ k ih =>
+    intro fs hc
+    have hr : readCell (img (es ++ fs) cap) i = some es[i] := by
+      rw [readCell_img _ _ i (by simp; omega)]
+      simp [List.getElem_append_left hi]
+    have hl : (es ++ fs).length = es.length + fs.length := by simp
+    have hcst := construct_img (es ++ fs) cap es[i] (by rw [hl]; omega)
+    rw [hl] at hcst
+    simp only [fillRefLoop, hr, hcst]
+    have := ih (fs ++ [es[i]]) (by simp; omega)
+    simp only [List.length_append, List.length_cons, List.length_nil, ← List.append_assoc] at this
+    rw [show es.length + fs.length + 1 = es.length + (fs.length + 0 + 1) by omega, this]
+    congr 2
+    simp [List.replicate_succ]
+
+theorem appendSelf_rel (r : RArr) (a : AState) (h : Rel r a) :
+    ∃ r' ra, appendSelf r = some r' ∧ a.appendSelf = some ra ∧ Rel r' ra.st := by
+  have hn := rel_n h
+  have hsz : a.size = a.elems.length := rfl
+  by_cases c : a.size = 0
+  · -- nothing to copy
+    have he : a.elems = [] := List.eq_nil_of_length_eq_zero c
+    obtain ⟨r1, e1, h1⟩ := reserve_rel r a h 0
+    have hr1 : r1.n = 0 := by
+      rw [rel_n h1, AState.size_eq, (AState.reserve_spec a 0 (rel_ok h)).1, he]; rfl
+    have hA : ∃ ra, a.appendSelf = some ra ∧ ra.st = (a.reserve 0).1 := by
+      unfold AState.appendSelf AState.appendAll
+      rw [he, c]
+      exact ⟨_, rfl, rfl⟩
+    obtain ⟨ra, ha1, ha2⟩ := hA
+    refine ⟨r1, ra, ?_, ha1, by rw [ha2]; exact h1⟩
+    unfold appendSelf
+    rw [hn, c]
+    simp only [Nat.add_zero, e1]
+    cases hc : r1.cells with
+    | none => simp
+    | some cs =>
+      simp only [selfCopyLoop]
+      congr 1
+      cases r1; simp at hc hr1 ⊢; exact ⟨hc.symm, hr1.symm⟩
+  · obtain ⟨r1, cap1, e1, g2, g3, g4, g5, g6, g7⟩ := reserve_shape r a h (a.size + a.size) (by omega)
+    have hloop := selfCopyLoop_img a.elems cap1 a.elems.length 0 (by omega) (by omega)
+    simp only [List.take_zero, List.append_nil, Nat.add_zero] at hloop
+    have hA : ∃ ra, a.appendSelf = some ra ∧ ra.st = { cap := cap1, data := some (a.elems ++ a.elems) } := by
+      have hp := pushAll_some a.elems cap1 a.elems (by omega)
+      unfold AState.appendSelf AState.appendAll
+      simp only [← hsz, g7, hp]
+      exact ⟨_, rfl, rfl⟩
+    obtain ⟨ra, ha1, ha2⟩ := hA
+    refine ⟨{ r1 with cells := some (img (a.elems ++ a.elems) cap1), n := a.size + a.size }, ra, ?_, ha1, ?_⟩
+    · unfold appendSelf
+      rw [hn, e1]
+      simp only [g2]
+      rw [hsz, hloop]
+    · rw [ha2]; exact ⟨g3, rfl, by simp [AState.size], by simp; omega⟩
+
+theorem appendRef_rel (r : RArr) (a : AState) (h : Rel r a) (i : Nat) :
+    (∃ r' ra, appendRef r i = some r' ∧ a.appendRef i = some ra ∧ Rel r' ra.st) ∨
+    (appendRef r i = none ∧ a.appendRef i = none) := by
+  have hn := rel_n h
+  have hsz : a.size = a.elems.length := rfl
+  by_cases c : i < a.size
+  · left
+    have hi : i < a.elems.length := c
+    obtain ⟨r1, cap1, e1, g2, g3, g4, g5, g6, g7⟩ := reserve_shape r a h (a.size + 1) (by omega)
+    have hr := readCell_img a.elems cap1 i hi
+    have hcst := construct_img a.elems cap1 a.elems[i] (by omega)
+    have hA : ∃ ra, a.appendRef i = some ra ∧ ra.st = { cap := cap1, data := some (a.elems ++ [a.elems[i]]) } := by
+      unfold AState.appendRef AState.append
+      rw [List.getElem?_eq_getElem hi]
+      simp only [g7, AState.push, show a.elems.length < cap1 by omega, if_true]
+      exact ⟨_, rfl, rfl⟩
+    obtain ⟨ra, ha1, ha2⟩ := hA
+    refine ⟨{ r1 with cells := some (img (a.elems ++ [a.elems[i]]) cap1), n := a.size + 1 }, ra, ?_, ha1, ?_⟩
+    · unfold appendRef
+      rw [hn]
+      simp only [c, if_true, e1, g2, hr]
+      rw [hsz, hcst]
+    · rw [ha2]; exact ⟨g3, rfl, by simp [AState.size], by simp; omega⟩
+  · right
+    refine ⟨by simp [appendRef, hn, c], ?_⟩
+    unfold AState.appendRef
+    rw [List.getElem?_eq_none (by omega)]
+
+theorem resizeRef_rel (r : RArr) (a : AState) (h : Rel r a) (n i : Nat) :
+    (∃ r' ra, resizeRef r n i = some r' ∧ a.resizeRef n i = some ra ∧ Rel r' ra.st) ∨
+    (resizeRef r n i = none ∧ a.resizeRef n i = none) := by
+  have hn := rel_n h
+  have hsz : a.size = a.elems.length := rfl
+  by_cases c : i < a.size
+  · left
+    have hi : i < a.elems.length := c
+    have hget : a.elems[i]? = some a.elems[i] := List.getElem?_eq_getElem hi
+    by_cases c2 : n < a.size
+    · -- shrinking: the value is not used, same as `resize`
+      obtain ⟨r', ra, e1, e2, e3⟩ := resize_rel r a h n a.elems[i]
+      refine ⟨r', ra, ?_, by unfold AState.resizeRef; rw [hget]; exact e2, e3⟩
+      unfold resize at e1
+      unfold resizeRef
+      rw [hn] at e1 ⊢
+      simp only [c, c2, if_true] at e1 ⊢
+      exact e1
+    · have hpos : 0 < n := by omega
+      obtain ⟨r1, cap1, e1, g2, g3, g4, g5, g6, g7⟩ := reserve_shape r a h n hpos
+      have hloop := fillRefLoop_img a.elems cap1 i hi (n - a.size) [] (by simp; omega)
+      simp only [List.append_nil, List.length_nil, Nat.add_zero] at hloop
+      have hA : ∃ ra, a.resizeRef n i = some ra ∧
+          ra.st = { cap := cap1, data := some (a.elems ++ List.replicate (n - a.size) a.elems[i]) } := by
+        unfold AState.resizeRef AState.resize
+        rw [hget]
+        simp only [c2, if_false, g7]
+        rw [pushAll_some _ cap1 a.elems (by simp; omega)]
+        exact ⟨_, rfl, rfl⟩
+      obtain ⟨ra, ha1, ha2⟩ := hA
+      refine ⟨{ r1 with cells := some (img (a.elems ++ List.replicate (n - a.size) a.elems[i]) cap1), n := n }, ra, ?_, ha1, ?_⟩
+      · unfold resizeRef
+        rw [hn]
+        simp only [c, c2, if_true, if_false, e1, g2]
+        rw [hsz] at hloop ⊢
+        rw [hloop]
+      · rw [ha2]; exact ⟨g3, rfl, by simp; omega, by simp; omega⟩
+  · right
+    refine ⟨by simp [resizeRef, hn, c], ?_⟩
+    unfold AState.resizeRef
+    rw [List.getElem?_eq_none (by omega)]
+
 /-! ### the machine -/
 
 def RelS (p : RPair) (s : State) : Prop := Rel p.a0 s.a0 ∧ Rel p.a1 s.a1
@@ -565,6 +747,16 @@ theorem rstep_rel (p : RPair) (s : State) (h : RelS p s) (op : Op) (ha : isArray
   case aeq v w =>
     by_cases hv : v < 2 ∧ w < 2
     · left; exact ⟨p, _, by simp only [rstep, hv, and_self, if_true], by simp only [step, hv, and_self, if_true] <;> rfl, h⟩
+    · right; simp [rstep, step, hv]
+  case aappendself v =>
+    exact unary p s h v appendSelf (fun a => a.appendSelf) (fun r a hr => Or.inl (appendSelf_rel r a hr))
+  case aappendref v i =>
+    exact unary p s h v (fun r => appendRef r i) (fun a => a.appendRef i) (fun r a hr => appendRef_rel r a hr i)
+  case aresizeref v n i =>
+    exact unary p s h v (fun r => resizeRef r n i) (fun a => a.resizeRef n i) (fun r a hr => resizeRef_rel r a hr n i)
+  case aassignself v =>
+    by_cases hv : v < 2
+    · left; exact ⟨p, _, by simp only [rstep, hv, if_true], by simp only [step, hv, if_true] <;> rfl, h⟩
     · right; simp [rstep, step, hv]
 
 theorem rrun_rel (ops : List Op) : ∀ (p : RPair) (s : State), RelS p s → (∀ op ∈ ops, isArrayOp op = true) →
